@@ -1315,7 +1315,8 @@ class Stage:
     @property
     def _transcribed(self):
         if not self.is_transcribed:
-            self.master._transcribe()
+            # (re)transcribe through the master, which works on an augmented copy of the whole tree
+            self.master._transcribed
         if self._is_original:
             return self._augmented 
         else:
